@@ -1,30 +1,55 @@
-"""C16 — graph half: DirectedGraph vs Model/Graph.v vs Spec/GraphSpec.v."""
+"""C16 — graph half: DirectedGraph vs Model/Graph.v vs Spec/GraphSpec.v;
+link half: real parsers with apply_on='instantiate' links end to end vs Model/LinkOrder.v vs Spec/LinkSpec.v."""
 import itertools
 
-from tie.framework import g_list, g_pair, g_str, run_impl
+from tie.framework import g_bool, g_list, g_nat, g_pair, g_str, run_impl_parallel
 
 PROP = "C16"
-IMPORTS = "From JV Require Import Lib.Base Model.Graph Spec.GraphSpec Corr.C16Judge."
-RULE = ("every directed graph (self-loops included) on <=3 labelled nodes and every loop-free graph on 4 nodes, "
-        "edges inserted in canonical order and in one seeded shuffled order, plus seeded random graphs on 5-7 nodes; "
-        "a case is non-trivial when it has >=2 edges; distinct = distinct (edge list, answer)")
+IMPORTS = "From JV Require Import Lib.Base Model.Graph Spec.GraphSpec Model.LinkOrder Spec.LinkSpec Corr.C16Judge."
+RULE = ("graph cases: every directed graph (self-loops included) on <=3 labelled nodes and every loop-free graph on 4 nodes "
+        "(thorough: every graph on <=4 nodes with loops, 60000 sampled 5-node graphs), edges inserted in canonical order and "
+        "in one seeded shuffled order, plus seeded random graphs on 5-7 nodes; non-trivial = >=2 edges. "
+        "link cases: a real parser per case from a layout of class groups / class-typed arguments (shapes G,S,SN,SNN,GN,GNN, "
+        "<=4 constructed objects), links (apply_on='instantiate') as a sequence of distinct (source component, target object) "
+        "pairs such that every proper prefix is acyclic (the last link may close a cycle and must then be rejected); quick: all "
+        "such sequences of length <=2 over every layout with <=3 objects, all lengths over the 1- and 2-object layouts, and a "
+        "seeded sample of longer ones over all layouts incl. 4 objects; thorough: every sequence over every layout with <=3 "
+        "objects, every acyclic sequence over four class groups (GGGG: all 543 DAGs in all declaration orders, each also with "
+        "one seeded cycle-closing link appended), 4000 sampled sequences over each of SN+G+G, GN+G+S, SN+GN, SNN+G, GNN+S and "
+        "300 over each other 4-object layout; source = whole object or attribute and compute_fn present or not chosen per link from the seed, some pairs "
+        "of links with a common target merged into one two-source link; non-trivial = >=1 link; "
+        "distinct = distinct (case, observation)")
 TRUSTED = [
     "Coq 8.16.1 kernel + vm_compute",
-    "tie/impl/c16_graph.py (observation of the real DirectedGraph) and the Gallina printer",
-    "hand-written model coq/Model/Graph.v, tied by per-case agreement evaluated inside Coq",
+    "tie/impl/c16_graph.py, tie/impl/c16_links.py (observation of the real DirectedGraph / real parsers: constructor and "
+    "compute_fn event log) and the Gallina printer",
+    "hand-written models coq/Model/Graph.v, coq/Model/LinkOrder.v, tied by per-case agreement evaluated inside Coq",
+    "the generated scratch classes (constructors log what they receive; link parameters l0..l7)",
 ]
-ASSUMPTIONS = ["node labels are hashable values compared by ==; the model uses strings"]
+ASSUMPTIONS = [
+    "node labels are hashable values compared by ==; the model uses strings",
+    "keys contain no '|' and no newline; the iteration order of the Python set `targets` only breaks ties between targets of "
+    "equal depth, which cannot change the edges added (argument in Model/LinkOrder.v)",
+    "links between different components only (links nested inside one class-typed argument are applied by the sub-parser and "
+    "are not modelled); sources are components (class group or class-typed argument) as link_arguments requires",
+    "when a not-yet-instantiated source Namespace is handed on as a raw link value (possible only outside the guard) the "
+    "model stops (outcome Unmodelled); exceptions escaping instantiate_classes are compared by kind 'exception' only",
+]
 EXHAUSTIVE = {"quick": False, "thorough": False}
+FINDING_CLASSES = {1: "nested-target-order", 2: "source-under-group"}
 LABELS = "abcdefg"
 
 
+# ---------------------------------------------------------------------------------------------------------------------
+# graph cases
+# ---------------------------------------------------------------------------------------------------------------------
 def all_graphs(n, loops):
     pairs = [(i, j) for i in range(n) for j in range(n) if loops or i != j]
     for mask in range(1, 2 ** len(pairs)):
         yield [[LABELS[i], LABELS[j]] for b, (i, j) in enumerate(pairs) if mask >> b & 1]
 
 
-def generate(rng, tier):
+def graph_cases(rng, tier):
     cases = []
     spaces = [(1, True), (2, True), (3, True), (4, False)]
     if tier == "thorough":
@@ -41,6 +66,14 @@ def generate(rng, tier):
             rng.shuffle(sh)
             if sh != es:
                 cases.append(sh)
+    if tier == "thorough":
+        pairs5 = [(i, j) for i in range(5) for j in range(5)]
+        for _ in range(60000):
+            dens = rng.choice([0.1, 0.2, 0.3, 0.5])
+            es = [[LABELS[i], LABELS[j]] for (i, j) in pairs5 if (i != j or rng.random() < 0.3) and rng.random() < dens]
+            rng.shuffle(es)
+            if es:
+                cases.append(es)
     for _ in range(400 if tier == "quick" else 20000):
         n = rng.randint(5, 7)
         m = rng.randint(2, 2 * n)
@@ -57,18 +90,269 @@ def generate(rng, tier):
     return cases
 
 
-def observe(cases):
-    chunks = [cases[i::16] for i in range(16)]
-    from tie.framework import run_impl_parallel
+# ---------------------------------------------------------------------------------------------------------------------
+# link cases
+# ---------------------------------------------------------------------------------------------------------------------
+SHAPES = ["G", "S", "SN", "SNN", "GN", "GNN"]
+NUNITS = {"G": 1, "S": 1, "SN": 2, "SNN": 3, "GN": 2, "GNN": 3}
 
-    res = run_impl_parallel("c16_graph.py", [{"cases": ch} for ch in chunks])
+
+def layout_units(decls):
+    """-> (components that can be link sources, [(unit key, target key prefix, enclosing unit or None)])"""
+    srcs, units = [], []
+    for n, sh in decls:
+        if sh == "G":
+            srcs.append(n)
+            units.append((n, n + ".", None))
+        elif sh == "S":
+            srcs.append(n)
+            units.append((n, n + ".init_args.", None))
+        elif sh in ("SN", "SNN"):
+            srcs.append(n)
+            units.append((n, n + ".init_args.", None))
+            u1 = n + ".init_args.sub"
+            units.append((u1, u1 + ".init_args.", n))
+            if sh == "SNN":
+                u2 = u1 + ".init_args.sub"
+                units.append((u2, u2 + ".init_args.", u1))
+        else:
+            srcs += [n, n + ".child"]
+            units.append((n, n + ".", None))
+            u1 = n + ".child"
+            units.append((u1, u1 + ".init_args.", n))
+            if sh == "GNN":
+                u2 = u1 + ".init_args.sub"
+                units.append((u2, u2 + ".init_args.", u1))
+    return srcs, units
+
+
+def all_layouts(max_units):
+    res = []
+
+    def rec(cur, left):
+        if cur:
+            res.append([[LABELS[i], s] for i, s in enumerate(cur)])
+        if len(cur) == 4:
+            return
+        for s in SHAPES:
+            if NUNITS[s] <= left:
+                rec(cur + [s], left - NUNITS[s])
+
+    rec([], max_units)
+    return res
+
+
+def cyclic(edges):
+    adj = {}
+    for s, t in edges:
+        adj.setdefault(s, set()).add(t)
+    state = {}
+
+    def visit(u):
+        state[u] = 1
+        for v in adj.get(u, ()):
+            if state.get(v) == 1 or (v not in state and visit(v)):
+                return True
+        state[u] = 2
+        return False
+
+    return any(u not in state and visit(u) for u in list(adj))
+
+
+def link_sequences(decls, max_len, rng=None, sample=None, closers="all"):
+    """Sequences of distinct (source component, target unit) pairs whose proper prefixes are acyclic together with the
+    nesting of the units.  Exhaustive (DFS) when sample is None — with closers="one" only one seeded choice of the
+    cycle-closing last link per acyclic sequence — else `sample` random walks."""
+    srcs, units = layout_units(decls)
+    contain = [(u, p) for u, _, p in units if p]
+    pairs = [(s, u) for s in srcs for u, _, _ in units]
+    out = []
+    if sample is None:
+        def rec(seq, used):
+            closing = []
+            for k, e in enumerate(pairs):
+                if k in used:
+                    continue
+                seq2 = seq + [e]
+                if cyclic(seq2 + contain):
+                    closing.append(seq2)
+                    continue
+                out.append(seq2)
+                if len(seq2) < max_len:
+                    rec(seq2, used | {k})
+            if closing:
+                out.extend(closing if closers == "all" else [rng.choice(closing)])
+
+        rec([], frozenset())
+    else:
+        for _ in range(sample):
+            seq = []
+            n = rng.randint(2, max_len)
+            cand = list(pairs)
+            rng.shuffle(cand)
+            for e in cand:
+                if len(seq) >= n:
+                    break
+                if cyclic(seq + [e] + contain) and rng.random() < 0.85:
+                    continue
+                seq.append(e)
+                if cyclic(seq + contain):
+                    break
+            if seq:
+                out.append(seq)
+    return out, units
+
+
+def make_case(decls, seq, units, rng):
+    prefix = {u: p for u, p, _ in units}
+    links = []
+    for k, (s, u) in enumerate(seq):
+        attr = rng.random() < 0.5
+        links.append({"src": [s + ".at" if attr else s], "tgt": prefix[u] + "l%d" % k, "id": k, "fn": rng.random() < 0.4,
+                      "_u": u})
+    # now and then merge two links with the same target object into one two-source link (needs a compute_fn)
+    if len(links) >= 2 and rng.random() < 0.2:
+        i, j = sorted(rng.sample(range(len(links)), 2))
+        if links[i]["_u"] == links[j]["_u"] and links[i]["src"][0].split(".at")[0] != links[j]["src"][0].split(".at")[0]:
+            links[i]["src"] += links[j]["src"]
+            links[i]["fn"] = True
+            del links[j]
+    for l in links:
+        del l["_u"]
+    return {"kind": "links", "decls": decls, "links": links}
+
+
+THOROUGH_4 = ["SN G G", "GN G S", "SN GN", "SNN G", "GNN S"]
+
+
+def link_cases(rng, tier):
+    cases = []
+    layouts = all_layouts(4)
+    for decls in layouts:
+        nu = sum(NUNITS[s] for _, s in decls)
+        key = " ".join(s for _, s in decls)
+        if tier == "quick":
+            if nu <= 2:
+                seqs, units = link_sequences(decls, 8)
+            elif nu == 3:
+                seqs, units = link_sequences(decls, 2)
+                more, _ = link_sequences(decls, 6, rng, 12)
+                seqs += more
+            else:
+                seqs, units = link_sequences(decls, 7, rng, 30)
+        else:
+            if nu <= 3:
+                seqs, units = link_sequences(decls, 8)
+            elif key == "G G G G":     # every acyclic link graph on 4 class groups in every declaration order
+                seqs, units = link_sequences(decls, 8, rng, closers="one")
+            elif key in THOROUGH_4:
+                seqs, units = link_sequences(decls, 7, rng, 4000)
+            else:
+                seqs, units = link_sequences(decls, 7, rng, 300)
+        for seq in seqs:
+            cases.append(make_case(decls, seq, units, rng))
+    return cases
+
+
+def generate(rng, tier):
+    return link_cases(rng, tier) + graph_cases(rng, tier)
+
+
+# ---------------------------------------------------------------------------------------------------------------------
+# observation
+# ---------------------------------------------------------------------------------------------------------------------
+def is_link(case):
+    return isinstance(case, dict)
+
+
+def canon_link_obs(o):
+    """Runner output -> {"outcome": ok|link_error|exc|unmodelled, "at": k, "log": [...], "raw": ...}"""
+    out = o["outcome"]
+    res = {"raw_outcome": out, "msg": o.get("msg", "")}
+    if out == "link_error" and o.get("why") == "cycle" and not o["log"]:
+        res.update(outcome="link_error", at=o["at"], log=[])
+    elif out.startswith("exc:"):
+        res.update(outcome="exc", log=[])
+    elif out == "ok":
+        log = []
+        ok = True
+        for ev in o["log"]:
+            if ev[0] == "new":
+                args = [[i, v] for i, v in ev[2] if v != ["unset"]]
+                ok = ok and all(value_ok(v) for _, v in args)
+                log.append(["new", ev[1], args])
+            else:
+                ok = ok and all(base_ok(v) for v in ev[2])
+                log.append(["call", ev[1], ev[2]])
+        if ok:
+            res.update(outcome="ok", log=log)
+        else:
+            res.update(outcome="unmodelled", log=[], raw_log=o["log"])
+    else:
+        res.update(outcome="unmodelled", log=[], raw_log=o.get("log"))
+    return res
+
+
+def base_ok(v):
+    return v[0] in ("obj", "attr", "ns")
+
+
+def value_ok(v):
+    return base_ok(v) or (v[0] == "fn" and all(base_ok(a) for a in v[2]))
+
+
+def observe(cases):
     out = [None] * len(cases)
-    for k, r in enumerate(res):
-        out[k::16] = r
+    gi = [i for i, c in enumerate(cases) if not is_link(c)]
+    li = [i for i, c in enumerate(cases) if is_link(c)]
+    if gi:
+        n = min(16, len(gi))
+        res = run_impl_parallel("c16_graph.py", [{"cases": [cases[i] for i in gi[k::n]]} for k in range(n)])
+        for k, r in enumerate(res):
+            for i, o in zip(gi[k::n], r):
+                out[i] = o
+    if li:
+        n = min(16, len(li))
+        res = run_impl_parallel("c16_links.py", [{"cases": [cases[i] for i in li[k::n]]} for k in range(n)])
+        for k, r in enumerate(res):
+            for i, o in zip(li[k::n], r):
+                out[i] = canon_link_obs(o)
     return out
 
 
+# ---------------------------------------------------------------------------------------------------------------------
+# Gallina
+# ---------------------------------------------------------------------------------------------------------------------
+def g_base(v):
+    if v[0] == "obj":
+        return "BObj %s" % g_str(v[1])
+    if v[0] == "attr":
+        return "BAttr %s" % g_str(v[1])
+    return "BNs (@nil N)"
+
+
+def g_value(v):
+    if v[0] == "fn":
+        return "VFn %s %s" % (g_nat(v[1]), g_list(["(%s)" % g_base(a) for a in v[2]], "base"))
+    return "VBase (%s)" % g_base(v)
+
+
+def g_event(ev):
+    if ev[0] == "new":
+        return "ENew %s %s" % (g_str(ev[1]), g_list([g_pair(g_nat(i), g_value(v)) for i, v in ev[2]], "(nat * value)"))
+    return "ECall %s %s" % (g_nat(ev[1]), g_list(["(%s)" % g_base(a) for a in ev[2]], "base"))
+
+
 def term(case, obs):
+    if is_link(case):
+        ds = g_list(["{| d_name := %s; d_shape := Sh%s |}" % (g_str(n), s) for n, s in case["decls"]], "decl")
+        ls = g_list(["{| l_id := %s; l_srcs := %s; l_target := %s; l_fn := %s |}"
+                     % (g_nat(l["id"]), g_list([g_str(s) for s in l["src"]], "str"), g_str(l["tgt"]), g_bool(l["fn"]))
+                     for l in case["links"]], "link")
+        oc = {"ok": "OOk", "exc": "OExc", "unmodelled": "OUnmodelled"}.get(obs["outcome"])
+        if obs["outcome"] == "link_error":
+            oc = "OLinkErr %s" % g_nat(obs["at"])
+        return "LinkCase %s %s (%s, %s)" % (ds, ls, oc, g_list([g_event(e) for e in obs["log"]], "event"))
     es = g_list([g_pair(g_str(s), g_str(t)) for s, t in case], "edge")
     if "order" in obs:
         o = "Order " + g_list([g_str(x) for x in obs["order"]], "str")
@@ -76,24 +360,48 @@ def term(case, obs):
         o = "Cycle %s %s" % (g_str(obs["cycle"][0]), g_str(obs["cycle"][1]))
     else:
         o = "Broken"
-    return "{| c_edges := %s; c_obs := %s |}" % (es, o)
+    return "GraphCase %s (%s)" % (es, o)
 
 
 def nontrivial_key(case, obs):
+    if is_link(case):
+        return None if not case["links"] else repr((case, obs.get("outcome"), obs.get("at"), obs.get("log")))
     return None if len(case) < 2 else repr((case, obs))
 
 
 def category(case, obs):
-    return "%d edges/%s" % (min(len(case), 9), next(iter(obs)))
+    if is_link(case):
+        nu = sum(NUNITS[s] for _, s in case["decls"])
+        nested = any(s not in ("G", "S") for _, s in case["decls"])
+        return "links: %d objects%s/%d links/%s" % (nu, " nested" if nested else "", len(case["links"]), obs["outcome"])
+    return "graph: %d edges/%s" % (min(len(case), 9), next(iter(obs)))
 
 
 def describe(case, obs):
+    if is_link(case):
+        return {"declarations (name, shape; see tie/impl/c16_links.py)": case["decls"],
+                "link_arguments calls in order (apply_on='instantiate')": case["links"],
+                "observed": {k: v for k, v in obs.items() if k in ("outcome", "at", "log", "raw_outcome", "msg", "raw_log")}}
     return {"edges_in_insertion_order": case, "DirectedGraph_answer": obs}
 
 
 def shrink(case):
+    if is_link(case):
+        ls = case["links"]
+        for i in range(len(ls)):
+            yield dict(case, links=ls[:i] + ls[i + 1:])
+        for i, l in enumerate(ls):
+            if l["fn"] and len(l["src"]) == 1:
+                yield dict(case, links=ls[:i] + [dict(l, fn=False)] + ls[i + 1:])
+        ds = case["decls"]
+        for i in range(len(ds)):
+            n = ds[i][0]
+            if not any(s == n or s.startswith(n + ".") for l in ls for s in l["src"] + [l["tgt"]]):
+                yield dict(case, decls=ds[:i] + ds[i + 1:])
+        return
     for i in range(len(case)):
-        yield case[:i] + case[i + 1 :]
+        yield case[:i] + case[i + 1:]
+
 
 META = {
     "level_text": "Theorem C16_topo_sort_correct (coq/Properties/C16.v): the DFS topological sort, for graphs of any size, "
